@@ -106,6 +106,13 @@ pub fn record_temp(seed: u64, thorough: bool, path: &str) -> Value {
         probe_names.push((ppart.clone(), temp_file_name(&ppart).to_string_lossy().to_string()));
     }
     results.push(probe_names);
+    // name parts that a path library may treat specially: dots (extensions), spaces, long parts
+    hooks::set_thread_tag(threads + 2);
+    let mut special: Vec<(String, String)> = Vec::new();
+    let mut parts: Vec<String> = ["part.v2", "archive.tar.gz", "dot.", ".hidden", "a b", "x..y", "p_1_2"].iter().map(|s| s.to_string()).collect();
+    for n in [100usize, 200, 240, 245, 250, 255, 256, 300] { parts.push(format!("L{}{}", n, "z".repeat(n - 4))); }
+    for part in parts.iter() { for _ in 0..3 { special.push((part.clone(), temp_file_name(part).to_string_lossy().to_string())); } }
+    results.push(special);
     let log = hooks::stop_atomic_log();
     let mut out = TraceOut::new();
     out.push(json!({"e": "start", "start": start, "threads": threads, "calls": calls}));
